@@ -16,6 +16,7 @@ import (
 
 	"github.com/ada-url/goada"
 	"github.com/internetarchive/Zeno/internal/pkg/config"
+	"github.com/internetarchive/Zeno/internal/pkg/postprocessor/domainscrawl"
 	"github.com/internetarchive/Zeno/internal/pkg/preprocessor"
 	"github.com/internetarchive/Zeno/internal/pkg/preprocessor/seencheck"
 	"github.com/internetarchive/Zeno/internal/pkg/stats"
@@ -34,6 +35,8 @@ import (
 // ih/is/eh/es = --include-host/--include-string/--exclude-host/--exclude-string, re = lines of the
 // first exclusion file, rf = the lines of further exclusion files (--exclusion-file repeated), w = indices (pre-order, among the nodes at the working depth) of URLs put into the
 // seen-store beforehand by a warm-up run of preprocess on a copy of the tree.
+// dc = --domains-crawl (naive domains, URLs, regular expressions): a hop-count option of the postprocessor with its
+// own matcher; handed to domainscrawl by the real GenerateCrawlConfig.  It must never widen the include filter.
 
 type scNode struct {
 	U string    `json:"u"`
@@ -50,6 +53,7 @@ type scInput struct {
 	RE []string   `json:"re,omitempty"` // lines of one exclusion file (the first)
 	RF [][]string `json:"rf,omitempty"` // further exclusion files: --exclusion-file given several times
 	LE []string   `json:"le,omitempty"` // how file i is written (le[i mod len]): nl | nonl | crlf | crlfnonl | blank | emptylast
+	DC []string   `json:"dc,omitempty"` // --domains-crawl
 	SP bool       `json:"sp,omitempty"` // the seed arrives with URL.Parse() already called, as the sources (queue, HQ, --input-seeds) deliver it
 	W  []int    `json:"w,omitempty"`
 	T  *scNode  `json:"t"`
@@ -314,6 +318,9 @@ func installScopeConfig(in *scInput) error {
 	c.ExcludeString = append([]string(nil), in.ES...)
 	c.ExclusionRegexes = nil
 	c.ExclusionFile = nil
+	// --domains-crawl: the matcher is process-wide state filled by GenerateCrawlConfig
+	domainscrawl.Reset()
+	c.DomainsCrawl = append([]string(nil), in.DC...)
 	scopeOwnRegexes = nil
 	scopeFileContents = nil
 	for i, lines := range in.files() {
@@ -333,6 +340,18 @@ func installScopeConfig(in *scInput) error {
 		}
 	}
 	return config.GenerateCrawlConfig()
+}
+
+// an entry of --domains-crawl that domainscrawl.AddElements accepts
+func dcEntryOK(e string) bool {
+	if u, err := url.Parse(e); err == nil && u.Scheme != "" && u.Host != "" {
+		return true
+	}
+	if !strings.ContainsAny(e, "/?# ") && strings.Contains(e, ".") {
+		return true
+	}
+	_, err := regexp.Compile(e)
+	return err == nil
 }
 
 func freshSeenStore() {
@@ -405,6 +424,16 @@ func execScope(input string) Result {
 			}
 		}
 	}
+	for _, e := range in.DC {
+		if !dcEntryOK(e) { // GenerateCrawlConfig panics on an entry that is neither URL nor domain nor regular expression
+			in = scInput{}
+			json.Unmarshal([]byte(scTrivial), &in)
+			tags = append(tags, "bad-input")
+			t, err = buildTree(in.T, nil, in.SP)
+			must(err)
+			break
+		}
+	}
 	must(installScopeConfig(&in))
 	freshSeenStore()
 
@@ -430,8 +459,9 @@ func execScope(input string) Result {
 	panicked := preprocessor.VerifScopePreprocess(t.seed)
 
 	// what the parsers said about each node at the working depth
-	var nvs, seen, reqfail []string
+	var nvs, seen, reqfail, dcm []string
 	kinds := map[string]bool{}
+	incActive := len(in.IH) > 0 || len(in.IS) > 0
 	inTree := map[*models.Item]bool{}
 	t.seed.Traverse(func(it *models.Item) { inTree[it] = true })
 	nreq, nrej := 0, 0
@@ -463,6 +493,25 @@ func execScope(input string) Result {
 				intern.id(text), coqStr(h0), coqStr(h1), coqStr(text), regexBits(text), coqBool(p == "" || p == "/")))
 			if _, err := http.NewRequest(http.MethodGet, text, nil); err != nil {
 				reqfail = append(reqfail, fmt.Sprint(id))
+			}
+			if len(in.DC) > 0 && domainscrawl.Enabled() && domainscrawl.Match(text) {
+				// the real matcher knows this URL; whether the include filter admits it is another matter
+				dcm = append(dcm, fmt.Sprint(id))
+				admitted := false
+				for _, f := range in.IH {
+					admitted = admitted || strings.Contains(h1, f)
+				}
+				for _, f := range in.IS {
+					admitted = admitted || strings.Contains(text, f)
+				}
+				switch {
+				case !incActive:
+					kinds["domains-crawl:match(no-include-filter)"] = true
+				case admitted:
+					kinds["domains-crawl:match-and-admitted-by-include-filter"] = true
+				default:
+					kinds["domains-crawl:match-NOT-admitted-by-include-filter"] = true
+				}
 			}
 			if h0 != h1 {
 				kinds["host:rewritten-by-String()"] = true // idna.ToASCII decodes an all-ASCII punycode label
@@ -528,7 +577,7 @@ func execScope(input string) Result {
 		effRe = append(effRe, re.String())
 	}
 	nfiles, nlines := len(in.files()), len(scopeOwnRegexes)
-	term := fmt.Sprintf("SC %s %s %s %s\n (%s)\n %s %s %s %s\n (%s)\n %s", cfg, coqStrs(files), coqStrs(config.Get().ExcludeHosts), coqStrs(effRe), treeIn,
+	term := fmt.Sprintf("SC %s %s %s %s %s %s\n (%s)\n %s %s %s %s\n (%s)\n %s", cfg, coqStrs(in.DC), coqList(dcm), coqStrs(files), coqStrs(config.Get().ExcludeHosts), coqStrs(effRe), treeIn,
 		coqList(nvs), coqList(seen), coqList(reqfail), coqBool(panicked != ""), treeOut, coqList(nodes))
 
 	if in.C != "" {
@@ -552,6 +601,12 @@ func execScope(input string) Result {
 		if len(f) > 0 {
 			kinds["exfile:"+in.style(i)] = true
 		}
+	}
+	switch {
+	case len(in.DC) > 0 && incActive:
+		kinds["cfg:domains-crawl+include-filter"] = true
+	case len(in.DC) > 0:
+		kinds["cfg:domains-crawl"] = true
 	}
 	if depth == 0 {
 		switch {
@@ -619,7 +674,7 @@ func shrinkScope(input string) []string {
 		v.SP = false
 		emit(v)
 	}
-	for _, f := range []*[]string{&in.IH, &in.IS, &in.EH, &in.ES, &in.RE} {
+	for _, f := range []*[]string{&in.IH, &in.IS, &in.EH, &in.ES, &in.RE, &in.DC} {
 		for i := range *f {
 			save := *f
 			*f = append(append([]string(nil), save[:i]...), save[i+1:]...)
@@ -685,7 +740,7 @@ func init() {
 		Footer:   stdFooter,
 		Rule: "one case = one item tree (seed alone / redirect chains / assets, depth 0-3, consistent and a few inconsistent parents) whose nodes at the working depth carry raw URLs from a grammar " +
 			"(absolute, scheme-relative, path-absolute, path-relative, query/fragment-only, scheme-less, other schemes; hosts: plain, with port, userinfo, IDN/punycode, upper-case, percent-encoded, " +
-			"hosts containing the excluded strings, localhost/127.0.0.1 in several spellings, dot-less, IPv6; quotes, white space, backslashes) under one of 46 fixed filter configurations (string and host filters with upper-case letters included; about a fifth of the leaves are planted references that contain a filter string as typed or with other letter case) or a random one, the exclusion regexes spread over 0-3 real --exclusion-file files (empty files, duplicates across files; written with LF, CRLF, without final newline, with blank or empty last lines); a seed at the working depth arrives fresh or with URL.Parse() already called, as the sources deliver it; " +
+			"hosts containing the excluded strings, localhost/127.0.0.1 in several spellings, dot-less, IPv6; quotes, white space, backslashes) under one of 55 fixed filter configurations (string and host filters with upper-case letters included; nine with --domains-crawl entries - domains, URLs, expressions - next to an include filter, with planted URLs on those domains outside the include set; about a fifth of the leaves are planted references that contain a filter string as typed or with other letter case) or a random one, the exclusion regexes spread over 0-3 real --exclusion-file files (empty files, duplicates across files; written with LF, CRLF, without final newline, with blank or empty last lines); a seed at the working depth arrives fresh or with URL.Parse() already called, as the sources deliver it; " +
 			"distinct by input text; non-trivial when at least one node got a request and at least one was rejected (normalisation or filters)",
 		Setup:    setupScope,
 		Gen:      genScope,
